@@ -148,6 +148,11 @@ func Typed() []Case {
 		one("package-level-using", "{% var P = itea; using %}p{% end %}{% macro M %}{{ P }}{% end %}{{ M() }}"),
 		one("default-and-render-missing", "{{ nope default 3 }}{{ render \"missing.html\" default \"d\" }}"),
 		one("types-and-consts", "{% type T struct { A int } %}{% const c = 2 %}{% t := T{A: c} %}{% f := func() int { return t.A } %}{{ f() }}"),
+		one("switch-without-tag-with-init", "{% switch x := F(1); %}{% case x > 1 %}a{% default %}b{% end %}{%% switch y := F(2); { case y > 2: show y; default: } %%}"),
+		one("type-switch-with-init", "{%% var i interface{} = K; switch j := i; v := j.(type) { case int: show v; case string, bool: show v; default: } %%}{% switch j := interface{}(gs); j.(type) %}{% case string %}s{% end %}"),
+		one("for-and-if-with-init", "{% if x := F(1); x > 1 %}a{% else if y := F(x); y > 1 %}b{% else %}c{% end %}{% for i := 0; i < 2; i++ %}{{ i }}{% end %}{% for i, v := range []int{1, 2} %}{{ i + v }}{% end %}{% for v in []string{gs} %}{{ v }}{% else %}e{% end %}"),
+		one("labels-and-select", "{%% ch := make(chan int, 1); L: for { select { case v, ok := <-ch: show v, ok; break L; case ch <- 1: continue L; default: break L } } %%}"),
+		one("parenthesised-leaves", "{% (x) := (1) %}{{ F((x)) + ((K)) }}{{ (gs) }}"),
 		one("select-and-defer", "{%% ch := make(chan int, 1); f := func() { defer func() { recover() }(); select { case ch <- g: default: } }; f(); show <-ch %%}"),
 		{Name: "typed:render", Entry: "index.html", Files: map[string]string{"index.html": "{% x := 1 %}{{ render \"p.html\" }}{% f := func() int { return x } %}{{ f() }}", "p.html": "{% y := 2 %}{% h := func() int { return y + g } %}{{ h() }}"}},
 		{Name: "typed:import", Entry: "index.html", Files: map[string]string{"index.html": "{% import \"lib.html\" %}{{ A() }}{{ B() }}{% macro C %}{{ V }}{{ A() }}{% end %}{{ C() }}", "lib.html": lib}},
@@ -184,14 +189,20 @@ func exprProductions() []production {
 		"%e()", "%e(%e)", "%e(%e, %e)", "%e(%e...)", "%e(%e, %e...)",
 		"%e[%e]", "%e[:]", "%e[%e:]", "%e[:%e]", "%e[%e:%e]", "%e[%e:%e:%e]", "%e[:%e:%e]",
 		"%e.f", "%e.(%t)",
+		// full slice expression without the last index
+		"%e[%e:%e:]", "%e[:%e:]", "%e[::]",
 		// conversions and builtin calls taking types
 		"%t(%e)", "(%t)(%e)", "make(%t, %e)", "new(%t)",
+		// conversions to types that END in a func type without results
+		"([]func())(%e)", "(map[%t]func())(%e)", "(func() func())(%e)", "(chan func())(%e)", "(*func())(%e)", "([2]func())(%e)", "(<-chan func())(%e)", "(func(%t) func(%t))(%e)",
+		// calls whose arguments are parenthesised
+		"%e((%e), (%e))", "%e((%e)...)",
 		// composite literals
 		"%t{}", "%t{%e}", "%t{%e, %e}", "%t{%e: %e}", "%t{%e: %e, %e: %e}", "&%t{%e}",
 		"[]%t{%e}", "[...]%t{%e}", "[2]%t{%e, %e}", "map[%t]%t{%e: %e}", "[][]%t{{%e}, {%e}}", "[]*%t{{%e}}", "map[%t]%t{{%e}: {%e}}",
 		"struct { F %t }{%e}", "struct { F %t }{F: %e}", "p.T{F: %e}",
 		// function literals
-		"func() {}", "func() { %e }", "func(x %t) %t { return %e }", "func(x, y %t) (z %t) { z = %e; return }", "func(x ...%t) { }", "func() { x := %e; _ = x }()",
+		"func() {}", "func() { %e }", "func(x %t) %t { return %e }", "func(x %t, y ...%t) (%t, %t) { return %e, %e }", "func(%t, ...%t) {}", "func(x %t) (y, z %t) { return }", "func(x, y %t, z %t) %t { return %e }", "func(x, y %t) (z %t) { z = %e; return }", "func(x ...%t) { }", "func() { x := %e; _ = x }()",
 		// parenthesised
 		"(%e)", "((%e))",
 		// a call of a default expression's operand
@@ -207,7 +218,7 @@ func typeProductions() []production {
 	for _, s := range []string{
 		"[]%t", "[2]%t", "[...]%t", "[%e]%t", "map[%t]%t", "chan %t", "<-chan %t", "chan<- %t", "*%t",
 		"func()", "func(%t)", "func(%t) %t", "func(%t, %t) (%t, %t)", "func(x %t) (y %t)", "func(x, y %t)", "func(...%t)", "func(x ...%t) %t",
-		"struct { F %t }", "struct { %t }", "struct { *%t }", "struct { F, G %t; H %t }", "struct { F %t `k:\"v\"` }", "struct { }",
+		"struct { F %t }", "struct { %t }", "struct { *%t }", "struct { F, G %t; H %t }", "struct { F %t `k:\"v\"` }", "struct { }", "struct { F %t \"a`b\" }", "struct { F %t \"k:\\\"v\\\"\"; G %t \"\" }", "struct { F, G %t `t`; %t `u` }",
 		"interface{}", "macro() html", "macro(x %t) string", "(%t)",
 	} {
 		ps = append(ps, production{s, false})
@@ -338,12 +349,15 @@ func expressions(tier string, precedence bool) []string {
 	out = append(out, exprLeavesExtra...)
 	out = append(out, typeLeaves...)
 	out = append(out, typeLeavesExtra...)
-	// depth 1: every production over every combination of leaves
+	// depth 1: every production over every combination of leaves, bare and in
+	// parentheses (a parenthesis count lives on every expression, leaves included)
+	d1 := append(append([]string{}, exprLeaves...), "(a)", "((1))", `("s")`)
+	out = append(out, "(a)", "((1))", `("s")`, "(nil)", "('c')", "(1.5)", "(T)")
 	for _, p := range eps {
-		out = append(out, fill(p.src, exprLeaves, typeLeaves)...)
+		out = append(out, fill(p.src, d1, typeLeaves)...)
 	}
 	for _, p := range tps {
-		out = append(out, fill(p.src, exprLeaves, typeLeaves)...)
+		out = append(out, fill(p.src, d1, typeLeaves)...)
 	}
 	// depth 1 with the extra leaves, one hole at a time
 	for _, p := range append(append([]production{}, eps...), tps...) {
@@ -458,7 +472,7 @@ var goStmts = []string{
 	"type N %t", "type N = %t", "type (\n N %t\n M = %t\n)",
 	"x := %e", "x, y := %e, %e", "x = %e", "x, y = %e, %e", "%e = %e", "x, _ = %e", "a[%e], a.f = %e, %e", "*%e = %e",
 	"x += %e", "x -= %e", "x *= %e", "x /= %e", "x %= %e", "x &= %e", "x |= %e", "x ^= %e", "x &^= %e", "x <<= %e", "x >>= %e", "%e += %e",
-	"x++", "x--", "%e++", "%e--",
+	"x++", "x--", "%e++", "%e--", "(x) := %e", "(x), y = %e, %e", "(x)++", "(x) += %e", "var x, y %t = (%e), (%e)", "return (%e), (%e)",
 	"%e <- %e", "<-%e", "f(%e)", "%e", "x.m(%e)",
 	"go f(%e)", "defer f(%e)", "go func() { %e }()", "defer func() { recover() }()", "go %e", "defer %e",
 	"goto L\nL:\nx = %e", "L:\nfor { break L }", "L: for { continue L }", "for { break }", "for { continue }", "L:\n{ x = %e }",
@@ -484,15 +498,15 @@ var tplStmts = []string{
 	"{% for i, v := range %e %}t{% end %}", "{% for range %e %}t{% end %}", "{% for i := range %e %}t{% else %}u{% end for %}", "{% for _, v := range %e %}{% if v %}{% break %}{% end %}{% end %}",
 	"{% L: %}{% for %}{% break L %}{% end %}", "{% L: for %}{% continue L %}{% end %}",
 	"{% switch %e %}{% case %e %}t{% case %e, %e %}u{% default %}v{% end switch %}", "{% switch %}{% case %e %}t{% end %}", "{% switch %e %} \n {% case %e %}t{% fallthrough %}{% default %}{% end %}",
-	"{% switch x := %e.(type) %}{% case %t %}t{% case %t, %t %}u{% default %}{% end %}", "{% switch x := %e; x %}{% end %}", "{% switch %e.(type) %}{% end %}",
+	"{% switch x := %e.(type) %}{% case %t %}t{% case %t, %t %}u{% default %}{% end %}", "{% switch x := %e; x %}{% end %}", "{% switch x := %e; %}{% case %e %}t{% end %}", "{% switch x := %e; y := x.(type) %}{% case %t %}t{% end %}", "{% if x := %e; x %}t{% end %}", "{% for x := %e; x; x = %e %}t{% end %}", "{% switch %e.(type) %}{% end %}",
 	"{% select %}{% case <-%e %}t{% default %}u{% end select %}", "{% select %}{% case x := <-%e %}{{ x }}{% case %e <- %e %}u{% end %}", "{% select %} {% case x, ok := <-%e %}{% end %}", "{% select %}{% end %}",
 	"{% macro M %}t{% end macro %}", "{% macro M(x %t) %}{{ x }}{% end %}", "{% macro M(x, y %t) html %}t{% end %}", "{% macro M() %}{% return %}{% end %}", "{% macro M(x %t, y ...%t) string %}{{ %e }}{% end macro %}", "{% macro M(%t, %t) %}t{% end %}",
 	"{% var x = %e %}", "{% var x %t %}", "{% var x, y = %e, %e %}", "{% var x %t = %e %}", "{% const c = %e %}", "{% const c %t = %e %}", "{% type N %t %}", "{% type N = %t %}",
-	"{% x := %e %}", "{% x = %e %}", "{% x, y := %e, %e %}", "{% x, y = %e, %e %}", "{% %e = %e %}",
+	"{% x := %e %}", "{% x = %e %}", "{% (x) := %e %}", "{% (x) = (%e) %}", "{{ (%e) }}", "{% show (%e), ((%e)) %}", "{% x, y := %e, %e %}", "{% x, y = %e, %e %}", "{% %e = %e %}",
 	"{% x += %e %}", "{% x -= %e %}", "{% x *= %e %}", "{% x /= %e %}", "{% x %= %e %}", "{% x &= %e %}", "{% x |= %e %}", "{% x ^= %e %}", "{% x &^= %e %}", "{% x <<= %e %}", "{% x >>= %e %}", "{% x++ %}", "{% x-- %}",
 	"{% show %e %}", "{% show %e, %e %}", "{{ %e }}", "{% f(%e) %}", "{% %e %}", "{% %e <- %e %}", "{% <-%e %}",
 	"{% defer f(%e) %}", "{% go f(%e) %}", "{% defer %e %}", "{% go %e %}",
-	"{% show %e; using %}t{% end using %}", "{% show itea; using %}t{% end %}", "{% var x = itea; using html %}t{% end %}", "{% x := itea; using %}t{% end %}", "{% x = itea; using markdown %}t{% end %}", "{% f(itea, %e); using macro %}t{% end %}", "{% show itea(%e); using macro(a %t) %}{{ a }}{% end %}", "{% show itea; using macro() css %}t{% end %}", "{% return itea; using %}t{% end %}", "{% x <- itea; using string %}t{% end %}", "{% go f(itea); using %}t{% end %}",
+	"{% show %e; using %}t{% end using %}", "{% show itea; using %}t{% end %}", "{% var x = itea; using html %}t{% end %}", "{% x := itea; using %}t{% end %}", "{% x = itea; using markdown %}t{% end %}", "{% f(itea, %e); using macro %}t{% end %}", "{% show itea(%e); using macro(a %t) %}{{ a }}{% end %}", "{% show itea; using macro() css %}t{% end %}", "{% show itea; using css %}t{% end %}", "{% show itea; using js %}t{% end %}", "{% show itea; using json %}t{% end %}", "{% show itea; using string %}t{% end %}", "{% show itea; using macro(a %t) markdown %}t{% end %}", "{% var x = itea; using macro(a, b %t) js %}t{% end %}", "{% return itea; using %}t{% end %}", "{% x <- itea; using string %}t{% end %}", "{% go f(itea); using %}t{% end %}",
 	"{% raw %}t {{ a }}{% end raw %}", "{% raw code %}t{% end raw code %}", "{% raw %}{% end %}", "{# comment #}", "t{# c #}u",
 	"{% extends \"layout.html\" %}{% macro M %}t{% end %}", "{% extends \"layout.html\" %}{% var x = %e %}{% M %}t", "{% extends \"layout.html\" %}\n{% import \"p.html\" %}\n{% Main(x %t) %}\n t{{ x }}",
 	"{% import \"p.html\" %}", "{% import p \"p.html\" %}", "{% import . \"p.html\" %}", "{% import \"p.html\" for A, B %}", "{% import _ \"p\" %}", "{% import \"p.html\" for A %}{{ A }}",
